@@ -69,8 +69,12 @@ TAskCallQuiet ==
         /\ (AskOwn \/ Ask(n, Ev.p))
         /\ req'.st = "call" /\ req'.n = n /\ req'.p = Ev.p
 TOrigQuiet == T.noorig /\ req.st = "call" /\ Silent /\ OrigCall("ok")
-\* ... and without a database nothing at all is observable of gemseo's own requests
-TAskOwnBlind == T.noorig /\ ~cfg.useDb /\ todo # <<>> /\ req.st = "none" /\ Silent /\ AskOwn
+\* ... and nothing at all is observable of gemseo's own requests whose result is not stored
+\* (no database, or a Jacobian with store_jacobian = False)
+TAskOwnBlind ==
+  /\ T.noorig /\ todo # <<>> /\ req.st = "none" /\ Silent
+  /\ (~cfg.useDb \/ (Head(todo)[2] = "jac" /\ ~cfg.storeJac))
+  /\ AskOwn
 
 \* gemseo's own request served from the database, or stopped (NaN input, budget)
 TOwnQuiet == todo # <<>> /\ Silent /\ AskOwn /\ req'.st = "none"
